@@ -221,8 +221,17 @@ def suite_isim(tier: str, seed: int, mult: int) -> SuiteResult:
             cnt["compl"] += 1
             try:
                 cs = sim.jt_compl_isim(X, input_is_packed=False)
-                midx = int(sim.jt_isim_medoid(X, input_is_packed=False)[0])
+                midx, mrow = sim.jt_isim_medoid(X, input_is_packed=False, pack=False)
+                midx = int(midx)
                 iv = ",".join(fval(x) for x in cs) + f" {midx}"
+                # packed input, packed output: the same values / the same row
+                cs_p = sim.jt_compl_isim(Xp, input_is_packed=True, n_features=F)
+                midx_p, mrow_p = sim.jt_isim_medoid(Xp, input_is_packed=True, n_features=F, pack=True)
+                if [fval(x) for x in cs_p] != [fval(x) for x in cs] or int(midx_p) != midx or \
+                        np.asarray(mrow_p).tobytes() != np.packbits(np.asarray(mrow, dtype=np.uint8)).tobytes() or \
+                        np.asarray(mrow).tolist() != X[midx].tolist():
+                    res.failures.append({"signature": "C11:complementary-similarity/medoid-differ-between-packed-and-unpacked-input",
+                                         "what": f"medoid {midx} vs {int(midx_p)}", "case": {"F": F, "rows": rows}})
             except Exception as e:  # noqa: BLE001
                 iv = err_name(e)
             mv = d.cmd(f"COMPL F={F} rows={rows_hex(rows)}")
